@@ -30,6 +30,7 @@ def run(ctx, sess):
     ctx.rule('C15.4', 'reconstruction covers what may be omitted: exact arms for u8/u4/u1 and float types, every arm counts what it fills; automatic omission applies to widths <= 8')
     ctx.rule('C15.6', 'automatic omission is decided only by a predicate that examines every byte of the block (a stored block is never replaced by a synthesised one unless it is constant)')
     ctx.rule('C15.13', 'reconstruction selects its arm by the storage type: for every accepted type of 8 bits or less and any fixed-point position in the upper half of data_type, the compare that selects the arm still holds (evaluated over the finite set of types x positions) - the definition check masks the position off and the writer decides by the width')
+    ctx.rule('C15.16', 'a block that was left out is rebuilt from its own summary entries: the index of the first summary entry used by the reconstruction derives from the start of the block (the block index times samples_per_data), not from the sample the caller asked for - a read that starts inside the block would otherwise be filled from the entries of the following block')
     ctx.rule('C15.5', 'the omission state is stored only by the API entry and by the per-block shift')
     f, br = first_block_stored(ctx, P, 'C15.1')
     full_block_only(ctx, P, 'C15.7')
@@ -42,6 +43,7 @@ def run(ctx, sess):
     _relay(ctx, sess, _src_c02.run, {'C02.10': 'C15.14'}, minimum=1)
     ctx.rule('C15.15', 'the summary an omitted block is rebuilt from is the one that belongs to the cached index: the level-1 cache is marked valid only after both chunks were read (shared with C04.9) - after a failed summary read the retry must not find the previous summary behind a fresh tag')
     from . import c04 as _src_c04
+    reconstruct_index_rule(ctx, P, 'C15.16')
     _relay(ctx, sess, _src_c04.run, {'C04.9': 'C15.15'}, only_functions=('jls_core_rd_fsr_level1', 'jls_core_rd_fsr_data0'), minimum=1)
     try:
         const_reference_rule(ctx, P)
@@ -413,3 +415,31 @@ def const_reference_rule(ctx, P):
            'first sample replicated over the byte for widths 1, 4, 8 (%d traces)' % n if not bad else
            '; '.join(bad[:2]) + ': a block of equal bytes whose samples differ (e.g. 4-bit samples alternating 1, 2) is taken for constant, left out, and read back as the replicated first sample')
     ctx.floor('reference byte traces', n, 20)
+
+
+def reconstruct_index_rule(ctx, P, rule):
+    fn = P.fn('reconstruct_omitted_chunk')
+    params = set(p_['name'] for p_ in fn.params)
+    cands = []
+    for ev in fn.events('decl'):
+        e = strip_casts(ev.e) if ev.e is not None else None
+        if e is None or e.get('op') != 'bin' or e['o'] != '/':
+            continue
+        if not any(m.get('op') == 'member' and m.get('field') == 'sample_decimate_factor' for m in walk(e['k'][1])):
+            continue
+        cands.append(ev)
+    if not cands:
+        raise AnalysisBroken('reconstruct_omitted_chunk: summary entry index (.. / sample_decimate_factor) not found')
+    for ev in cands:
+        num = strip_casts(strip_casts(ev.e)['k'][0])
+        refs = [m for m in walk(num) if m.get('op') == 'ref' and m.get('rk') in ('param', 'local')]
+        from_param = [m['name'] for m in refs if m.get('rk') == 'param' or m['name'] in params]
+        block_based = False
+        for m in refs:
+            if m.get('rk') == 'local':
+                d = [x for x in fn.events('decl') if x.name == m['name'] and x.e is not None]
+                if d and any(y.get('op') == 'member' and y.get('field') == 'samples_per_data' for y in walk(d[0].e)) and any(y.get('op') == 'bin' and y['o'] == '*' for y in walk(d[0].e)):
+                    block_based = True
+        ctx.ob(rule, block_based and not from_param, fn.name, 'first summary entry of the rebuilt block (%s)' % ev.name, ev.where(),
+               'derived from the block start' if (block_based and not from_param) else
+               'derived from %s, the sample that was asked for: a window that starts inside a left-out block is rebuilt from entries one or more positions too far, the tail of the block shows the values of the next block (or the read fails at the end of the summary chunk)' % (from_param or ['?'])[0])
